@@ -84,6 +84,8 @@ impl Drop for InstantiatingSignatureGuard {
 pub struct TypeSubstitutor {
     tpl_replace_map: HashMap<GenericTplId, SubstitutorValue>,
     alias_type_id: Option<LuaTypeDeclId>,
+    /// aliases whose origin is being instantiated further up (`M1<T>` → `M2<T>` → `M1<T[]>` → …)
+    alias_chain: Vec<LuaTypeDeclId>,
     self_type: Option<LuaType>,
 }
 
@@ -98,6 +100,7 @@ impl TypeSubstitutor {
         Self {
             tpl_replace_map: HashMap::new(),
             alias_type_id: None,
+            alias_chain: Vec::new(),
             self_type: None,
         }
     }
@@ -113,6 +116,7 @@ impl TypeSubstitutor {
         Self {
             tpl_replace_map,
             alias_type_id: None,
+            alias_chain: Vec::new(),
             self_type: None,
         }
     }
@@ -128,6 +132,7 @@ impl TypeSubstitutor {
         Self {
             tpl_replace_map,
             alias_type_id: Some(alias_type_id),
+            alias_chain: Vec::new(),
             self_type: None,
         }
     }
@@ -221,7 +226,16 @@ impl TypeSubstitutor {
             return true;
         }
 
-        false
+        self.alias_chain.contains(type_id)
+    }
+
+    /// Remember the aliases `parent` is already instantiating, so that mutually recursive generic
+    /// aliases are not unfolded into each other without end.
+    pub fn inherit_alias_chain(&mut self, parent: &TypeSubstitutor) {
+        self.alias_chain.extend(parent.alias_chain.iter().cloned());
+        if let Some(alias_type_id) = &parent.alias_type_id {
+            self.alias_chain.push(alias_type_id.clone());
+        }
     }
 
     pub fn add_self_type(&mut self, self_type: LuaType) {
